@@ -1,5 +1,5 @@
 /-
-C07 — Coxeter automata accept exactly the geodesic / shortlex normal forms.   (PARTIAL)
+C07 — Coxeter automata accept exactly the geodesic / shortlex normal forms.   (PARTIAL: proved in rank 2)
 
 Only property theorems and non-vacuity examples live here; helper lemmas are in
 `GT.Lemmas.CoxAut`.  Model: `GT.Model.CoxAut`.
@@ -10,6 +10,8 @@ language, the even-length variant accepts exactly the even-length accepted words
 moves / `ss`-deletions preserve the group element (Mathlib `CoxeterSystem`), so a shortening
 move sequence is a kernel-checkable certificate that a word is not reduced.
 
+The central clause is PROVED FOR RANK 2 (dihedral groups, every `m ≥ 2` and `m = ∞`; see the section
+"rank 2" below).  FOR RANK ≥ 3 it is
 NOT PROVED — kept as a comment, never as a theorem (Mathlib has no root systems of Coxeter
 groups, no exchange/deletion condition, no Matsumoto theorem, no dominance order; formalising
 Brink–Howlett is out of reach here):
